@@ -54,7 +54,7 @@ def shard(ctx, budget_s):
                 p["target"] = b"/" + http._bytes_excluding(rng, n - 1, (0x20, 0x0D, 0x0A)) if rng.random() < 0.7 else b"/" + b"a" * (n - 2) + bytes([rng.choice([0xE9, 0xFF, 0xC3, 0x61])])
             req = http.build(p)
             for tr in ("udp", "tcp"):
-                if lab.identified(req, tr) != sigref.HTTP:
+                if sigref.identify(req, tr == "udp") != sigref.HTTP:
                     ctx.stats["skipped_matcher_disagreement"] += 1
                     continue
                 a = lab.ask(req, tr)
@@ -65,7 +65,7 @@ def shard(ctx, budget_s):
                     ctx.violation("response:" + e.split(" ")[0], "%s; request %r over %s" % (e, req[:80], tr), observed=(a.rep or b"").hex()[:400],
                                   expected="well-formed 401")
             # the same request delivered in several segments (cuts inside the method, the target, the headers)
-            if rng.random() < 0.3 and lab.identified(req, "tcp") == sigref.HTTP:
+            if rng.random() < 0.3 and sigref.identify(req, False) == sigref.HTTP:
                 k = rng.choice([1, 2, 3, 4])
                 cuts = sorted(set(rng.choice([rng.randrange(1, min(len(req), 8)), rng.randrange(1, len(req))]) for _c in range(k)))
                 reps = lab.ask_segments(req, cuts)
